@@ -73,6 +73,21 @@ package grpc
 //@ func WithLimiter$1
 //@   requires cfg: cfg != nil
 //@   ensures[C14] sets: cfg.limiter == limiter && cfg.limitExceededResponseClassifier == old(cfg.limitExceededResponseClassifier) && cfg.serverResponseClassifer == old(cfg.serverResponseClassifer) && cfg.clientResponseClassifer == old(cfg.clientResponseClassifer)
+//@ func WithName$1
+//@   requires cfg: cfg != nil
+//@   ensures[C14] sets: cfg.name == name && cfg.limiter == old(cfg.limiter) && cfg.limitExceededResponseClassifier == old(cfg.limitExceededResponseClassifier) && cfg.serverResponseClassifer == old(cfg.serverResponseClassifer) && cfg.clientResponseClassifer == old(cfg.clientResponseClassifer)
+//@ func WithTags$1
+//@   requires cfg: cfg != nil
+//@   ensures[C14] sets: cfg.limiter == old(cfg.limiter) && cfg.limitExceededResponseClassifier == old(cfg.limitExceededResponseClassifier) && cfg.serverResponseClassifer == old(cfg.serverResponseClassifer) && cfg.clientResponseClassifer == old(cfg.clientResponseClassifer)
+//@ func WithStreamSendName$1
+//@   requires cfg: cfg != nil
+//@   ensures[C14] sets: cfg.sendName == name && cfg.recvLimiter == old(cfg.recvLimiter) && cfg.sendLimiter == old(cfg.sendLimiter) && cfg.recvLimitExceededResponseClassifier == old(cfg.recvLimitExceededResponseClassifier) && cfg.sendLimitExceededResponseClassifier == old(cfg.sendLimitExceededResponseClassifier) && cfg.serverResponseClassifer == old(cfg.serverResponseClassifer) && cfg.clientResponseClassifer == old(cfg.clientResponseClassifer)
+//@ func WithStreamRecvName$1
+//@   requires cfg: cfg != nil
+//@   ensures[C14] sets: cfg.recvName == name && cfg.recvLimiter == old(cfg.recvLimiter) && cfg.sendLimiter == old(cfg.sendLimiter) && cfg.recvLimitExceededResponseClassifier == old(cfg.recvLimitExceededResponseClassifier) && cfg.sendLimitExceededResponseClassifier == old(cfg.sendLimitExceededResponseClassifier) && cfg.serverResponseClassifer == old(cfg.serverResponseClassifer) && cfg.clientResponseClassifer == old(cfg.clientResponseClassifer)
+//@ func WithStreamTags$1
+//@   requires cfg: cfg != nil
+//@   ensures[C14] sets: cfg.limiter == old(cfg.limiter) && cfg.limitExceededResponseClassifier == old(cfg.limitExceededResponseClassifier) && cfg.serverResponseClassifer == old(cfg.serverResponseClassifer) && cfg.clientResponseClassifer == old(cfg.clientResponseClassifer)
 //@ func WithLimitExceededResponseClassifier$1
 //@   requires cfg: cfg != nil
 //@   ensures[C14] sets: cfg.limitExceededResponseClassifier == classifier && cfg.limiter == old(cfg.limiter) && cfg.serverResponseClassifer == old(cfg.serverResponseClassifer) && cfg.clientResponseClassifer == old(cfg.clientResponseClassifer)
